@@ -544,6 +544,12 @@ class Translator:
             if mem not in f:
                 raise TieBroken(f"{ctx['where']}: no field {mem} in Rate")
             return self.bindall([b], lambda c: Val(f"({f[mem]} {c[0]})", ty, True))
+        if b.ty[0] == "qty" and mem in ("amount", "unit") and b.ty[1] != "AMOUNT":
+            # a generated operator impl reading the struct's field directly instead of calling the accessor
+            # (the accessors of the generated struct are field reads: templates Quantity_*_amount / _unit)
+            if mem == "amount":
+                return self.bindall([b], lambda c: Val(f"(q_amount {b.ty[1]} {c[0]})", AMNT, True))
+            return self.bindall([b], lambda c: Val(f"(q_unit {b.ty[1]} {c[0]})", t_unit(b.ty[1]), True))
         if b.ty[0] == "convtable" and mem == "mappings":
             q = b.ty[1]
             return Val(b.code, t_list(("tuple", [t_unit(q), t_unit(q), AMNT, AMNT])), b.pure)
@@ -559,6 +565,12 @@ class Translator:
             if set(vals) != set(order):
                 raise TieBroken(f"{ctx['where']}: struct literal fields")
             return self.bindall([vals[f] for f in order], lambda c: Val(f"({ctx['struct_ctor'][sname]} am " + " ".join(c) + ")", ctx["self"], True))
+        if name == "Self" and ctx["self"][0] == "qty" and ctx["self"][1] != "AMOUNT" and set(vals) in ({"amount"}, {"amount", "unit"}):
+            # a generated operator impl building the struct by a literal instead of Self::new
+            x = ctx["self"][1]
+            if "unit" in vals:
+                return self.bindall([vals["amount"], vals["unit"]], lambda c: Val(f"(q_new {x} {c[0]} {c[1]})", t_qty(x), True))
+            return self.bindall([vals["amount"]], lambda c: Val(f"(q_new {x} {c[0]} 0%nat)", t_qty(x), True))
         if name == "Self" and ctx["self"][0] == "rate":
             order = ["term_amount", "term_unit", "per_unit_multiple", "per_unit"]
             if set(vals) != set(order):
@@ -914,6 +926,13 @@ class Translator:
                 return self.bindall([x], lambda c: Val(f"(fmt_pad {fm.code} {c[0]})", TEXT, True))
             if x.ty == AMNT:
                 return self.bindall([x], lambda c: Val(f"(a_display am {fm.code} {c[0]})", TEXT, True))
+        # -- Trait::method(receiver, ..) without the `<X as Trait>` qualification: resolved through the receiver's type
+        m = re.fullmatch(r"(HasRefUnit|Quantity|Unit|LinearScaledUnit)::([a-z_]+)", txt)
+        if m and not q and args:
+            vs = avals()
+            g = f"{m.group(1)}_{m.group(2)}"
+            if g in self.sources and vs[0].ty[0] in ("qty", "unit"):
+                return self.bindall(vs, lambda c: self.call_fn(g, [vs[0].ty[1]], c, ctx))
         raise TieBroken(f"{ctx['where']}: unsupported call {txt} (line {e.get('line')})")
 
     def resolve_tyname(self, name, ctx):
